@@ -107,6 +107,19 @@ pub fn impl_answer(case: &Case) -> String {
             let spec = CtxSpec::from_sx(&payload[0]).expect("bad ctx");
             eval_on_impl(&spec, case.src.as_deref(), payload.get(1))
         }
+        "run" => {
+            let spec = CtxSpec::from_sx(&payload[0]).expect("bad ctx");
+            let src = String::from_utf8_lossy(&crate::sx::unhex(payload[1].as_atom().unwrap_or("x"))).into_owned();
+            eval_on_impl(&spec, Some(&src), None)
+        }
+        "compile" => {
+            let src = String::from_utf8_lossy(&crate::sx::unhex(payload[0].as_atom().unwrap_or("x"))).into_owned();
+            match quietly(|| catch_unwind(|| cel_parser::Parser::new().parse(&src))) {
+                Err(_) => "(panic)".to_string(),
+                Ok(Err(_)) => "(reject)".to_string(),
+                Ok(Ok(ast)) => format!("(ast {})", expr_to_sx(&ast).to_text()),
+            }
+        }
         "cmp2" => {
             let a = sx_to_value(&payload[0]).expect("bad value");
             let b = sx_to_value(&payload[1]).expect("bad value");
@@ -214,6 +227,17 @@ pub fn normalize_unordered(ans: &str) -> String {
         out.push(x.to_text());
     }
     out.join(" ")
+}
+
+/// compile + execute on both sides from the source text (the model uses its own parser)
+pub fn run_case(spec: &CtxSpec, src: &str) -> Case {
+    let mut c = Case::new("run", format!("{} {}", spec.to_sx().to_text(), crate::sx::hex(src.as_bytes())));
+    c.src = Some(src.to_string());
+    c
+}
+
+pub fn compile_case(src: &str) -> Case {
+    Case::new("compile", crate::sx::hex(src.as_bytes()))
 }
 
 /// Two programs against one context (both call styles of a function).
